@@ -113,6 +113,9 @@ MODELS = {
         "channels": {"Leak": [1, 2, 3, 4, 8]},
     },
 }
+# the same network, but Leak is inserted into cell 1 only and BEFORE the cells are assembled: the network's flag column then comes
+# out of the concatenation of the cells' tables (object dtype, not bool) — the path behind defect F26
+MODELS["nethet"] = dict(MODELS["net"], name="nethet", channels={"Leak": [3, 4, 8]}, pre_channels=True)
 # per-model constants used by the alphabets (global labels)
 CONST = {
     "comp": {"gl_branch": [0], "gl_comp": [0], "sel": [0], "sel_unsorted": [0], "gl_int": 0, "sel_small": [0]},
@@ -122,6 +125,9 @@ CONST = {
     "net": {"gl_branch": [1, 3], "gl_comp": [2, 4, 5, 7], "sel": [1, 2, 4, 5, 6, 7], "sel_unsorted": [6, 1, 4],
             "gl_int": 3, "sel_small": [3, 8]},
 }
+
+
+CONST["nethet"] = CONST["net"]
 
 
 # ============================================================================= model construction (worker side)
@@ -169,7 +175,18 @@ def build_module(desc, ref):
     elif k == "cell":
         mod = build.cell_of(desc["parents"], desc["ncomps"])
     else:
-        mod = jx.Network([build.cell_of(c["parents"], c["ncomps"]) for c in desc["cells"]])
+        cells = [build.cell_of(c["parents"], c["ncomps"]) for c in desc["cells"]]
+        if desc.get("pre_channels"):
+            off = 0
+            for cell in cells:
+                nloc = len(cell.nodes)
+                for c, ids in desc["channels"].items():
+                    loc_ids = [i - off for i in ids if off <= i < off + nloc]
+                    if loc_ids:
+                        cell.select(nodes=loc_ids).insert(Leak())
+                        cell.select(nodes=loc_ids).set("Leak_gLeak", 2e-4)
+                off += nloc
+        mod = jx.Network(cells)
         syn = {SYN_A: IonotropicSynapse, SYN_B: TestSynapse}
         for s in desc["synapses"]:
             # endpoints by row label (select) so that the construction does not depend on the code under test more
@@ -185,6 +202,8 @@ def build_module(desc, ref):
             mod.select(nodes=ids[1:]).add_to_group(g)
     for c, ids in desc["channels"].items():
         assert c == "Leak"
+        if desc.get("pre_channels"):
+            continue
         mod.select(nodes=ids).insert(Leak())
         mod.select(nodes=ids).set("Leak_gLeak", 2e-4)  # non-default so that re-insertion is visible
     # pre-existing recordings / stimuli / clamps so that the mutators hit the "append" paths
@@ -666,6 +685,7 @@ def families(tier):
             ("net", None, ["FULL"]), ("net", None, ["MID", "MID"]), ("net", None, ["SMALL", "SMALL", "SMALL"]),
             ("net", "global", ["SMALL"]), ("net", "global", ["SMALL", "SMALL"]),
             ("cell", "global", ["SMALL"]), ("cell", "global", ["SMALL", "SMALL"]),
+            ("nethet", None, ["FULL"]), ("nethet", None, ["SMALL", "SMALL"]),
         ]
     return [
         ("comp", None, ["FULL"]), ("comp", None, ["FULL", "FULL"]),
@@ -679,15 +699,16 @@ def families(tier):
         ("net", "global", ["MID"]), ("net", "global", ["MID", "MID"]), ("net", "global", ["SMALL", "SMALL", "SMALL"]),
         ("cell", "global", ["MID"]), ("cell", "global", ["MID", "MID"]),
         ("branch", "global", ["MID"]), ("branch", "global", ["MID", "MID"]),
+        ("nethet", None, ["FULL"]), ("nethet", None, ["MID", "MID"]), ("nethet", "global", ["MID"]),
     ]
 
 
 def families_b(tier):
     if tier == "quick":
         return [("comp", ["B"]), ("branch", ["B"]), ("cell", ["B"]), ("cell", ["B", "B2"]), ("net", ["B"]),
-                ("net", ["B", "B2"])]
+                ("net", ["B", "B2"]), ("nethet", ["B"])]
     return [("comp", ["B"]), ("branch", ["B"]), ("branch", ["B", "B"]), ("cell", ["B"]), ("cell", ["B", "B"]),
-            ("net", ["B"]), ("net", ["B", "B"])]
+            ("net", ["B"]), ("net", ["B", "B"]), ("nethet", ["B"]), ("nethet", ["B", "B2"])]
 
 
 _REFS = {}
